@@ -751,11 +751,19 @@ class CombinedExpressionSerialization(DeconstructedSerialization):
             unicode:
             The resulting Python code.
         """
-        return '%s %s %s' % (
-            serialize_to_python(value.lhs),
-            value.connector,
-            serialize_to_python(value.rhs),
-        )
+        # Nested combined expressions must be wrapped in parentheses, or
+        # operator precedence would regroup them when the text is evaluated.
+        operands = []
+
+        for operand in (value.lhs, value.rhs):
+            operand_str = serialize_to_python(operand)
+
+            if isinstance(operand, CombinedExpression):
+                operand_str = '(%s)' % operand_str
+
+            operands.append(operand_str)
+
+        return '%s %s %s' % (operands[0], value.connector, operands[1])
 
     @classmethod
     def _deconstruct_object(cls, obj):
